@@ -41,7 +41,7 @@ META = {
         "a fault under Optional is one UnionLoadError at the position of the Optional (its inner case errors are not positions)",
         "strict_coercion=True; leaves int/str; name_mapping layouts: identity, rename, nested path, list",
     ],
-    "bound": {"quick": "depth <= 3, antichains of <= 3 faults", "thorough": "depth <= 3 plus a third of depth 4, antichains of <= 4 faults"},
+    "bound": {"quick": "depth <= 3 plus a third of depth 4, antichains of <= 4 faults", "thorough": "depth <= 3 plus depth 4 over list/optional/flat-model middles, antichains of <= 5 faults"},
 }
 
 LAYOUTS = ("plain", "renamed", "flat", "aslist", "flatlist")
@@ -66,10 +66,9 @@ def structures(tier):
             d3.append(("Model", lay, t, ("int",)))
             d3.append(("Model", lay, ("str",), t))
     d4 = []
-    if tier == "thorough":
-        mids = [t for t in d3 if t[0] in ("List", "Optional", "Model") and (t[0] != "Model" or t[1] in ("flat", "aslist"))]
-        for t in mids[::3]:
-            d4 += [("List", t), ("Dict", t), ("Model", "flat", t, ("int",)), ("Tuple", t, ("str",))]
+    mids = [t for t in d3 if t[0] in ("List", "Optional", "Model") and (t[0] != "Model" or t[1] in ("flat", "aslist"))]
+    for t in (mids[::3] if tier == "quick" else mids):
+        d4 += [("List", t), ("Dict", t), ("Model", "flat", t, ("int",)), ("Tuple", t, ("str",))]
     return leaves + d2 + d3 + d4
 
 
@@ -462,7 +461,7 @@ def shard(args):
 def run(tier):
     report = Report()
     structs = structures(tier)
-    k = 3 if tier == "quick" else 4
+    k = 4 if tier == "quick" else 5
     n = 128 if tier == "quick" else 512
     parallel.run_shards(shard, [(structs[i::n], k) for i in range(n) if structs[i::n]], report=report)
     return report
